@@ -6,7 +6,7 @@
 (* and the model-level corollaries (zero iff equal, invariance under a common  *)
 (* rigid motion, symmetry) and prints the cases.                                *)
 EXTENDS MetricsProps, TLC, Json
-CONSTANTS Which, Rots, Emit, RpeN
+CONSTANTS Which, Rots, Emit, RpeN, Light
 VARIABLES c, o, pc
 vars == <<c, o, pc>>
 Trs == {<<0, 0, 0>>, <<3, 4, 0>>, <<1, 2, 2>>, <<-2, 3, 6>>, <<0, 0, 5>>}
@@ -31,7 +31,8 @@ Init == /\ pc = "call" /\ o = [out |-> "none"]
                                      \E rf \in Seqs({Pose(1, <<0, 0, 0>>), Pose(7, <<1, 2, 2>>)}, n), es \in Seqs({Pose(12, <<3, 4, 0>>), Pose(1, <<0, 0, 0>>)}, m) :
                                         c = [fam |-> "ape", rel |-> rel, ref |-> rf, est |-> es]
              [] Which = "rpe" -> \E n \in RpeN : \E s1 \in Seqs(StepsV, n - 1), s2 \in Seqs({<<1, 0, 0>>, <<0, 4, 0>>}, n - 1), r1 \in Seqs(RotSteps, n - 1),
-                                       rel \in Relations, fr \in BOOLEAN, all \in BOOLEAN, q \in {<<"frames", 1>>, <<"frames", 2>>, <<"meters", 2>>, <<"degrees", 90>>} :
+                                       rel \in (IF Light THEN {"trans", "ratio"} ELSE Relations), fr \in BOOLEAN, all \in BOOLEAN,
+                                       q \in (IF Light THEN {<<"meters", 2>>, <<"meters", 1>>} ELSE {<<"frames", 1>>, <<"frames", 2>>, <<"meters", 2>>, <<"degrees", 90>>}) :
                                     LET ref == MkTraj(s1, r1)  est == MkTraj(s2, [k \in 1..(n - 1) |-> IF k = 1 THEN 12 ELSE 1]) IN
                                     \* the point-distance relations compare straight-line distances: keep them on the integer lattice
                                     /\ (rel \in {"pdist", "ratio"} => \A i, j \in 1..n : ISqrt(Dist2(ref[i].p, ref[j].p)) >= 0 /\ ISqrt(Dist2(est[i].p, est[j].p)) >= 0)
